@@ -46,7 +46,7 @@ def scene_xml(c, r):
     sz = f' size="{size}"' if size else ""
     per_home[g["home"]].append(f'<geom name="g{i}" type="{t}"{sz}{extra} pos="{family._v(pos)}" quat="{family._v(quat)}" group="{g["group"]}"{vis}/>')
   inert = '<inertial pos="0 0 0" mass="1" diaginertia=".1 .1 .1"/>'
-  xml = f"""<mujoco><asset>{"".join(assets)}</asset><worldbody>
+  xml = f"""<mujoco><option><flag contact="disable"/></option><size memory="20M"/><asset>{"".join(assets)}</asset><worldbody>
     {"".join(per_home["world"])}
     <body name="static_child" pos="0.1 -0.1 0.05" quat="{family._v(family._unit(r, 4))}">{"".join(per_home["static_child"])}</body>
     <body name="moving1" pos="0.2 0.1 0.1">{inert}<freejoint/>{"".join(per_home["moving1"])}</body>
